@@ -1,6 +1,9 @@
-(* C14 -- concrete instances: a non-vacuous instance of the round-trip theorem
-   and witnesses where the FAITHFUL model violates a clause of the property
-   (each is replayed on the implementation by the oracle of the check). *)
+(* C14 -- concrete instances: non-vacuous instances of the round-trip theorem
+   (among them the strata of the repaired defects: maps of at most 3 points, 3
+   points in data, one point in data, single column, single point, name with a
+   blank, property "ds"), and witnesses where the FAITHFUL model still violates
+   a clause of the property (each is replayed on the implementation by the
+   oracle of the check). *)
 From Coq Require Import ZArith String Ascii List Bool Lia.
 From Verif Require Import C14Ang C14Lemmas C14Grid C14Header C14Round.
 Import ListNotations.
@@ -12,7 +15,7 @@ Definition ZRot : Type := Z * Z * Z.
 Definition zcoord (d : Z) (k : nat) : Z := Z.of_nat k * d.
 Definition zwrite (m : @cmap Z ZRot) (kw : kwargs) : option file :=
   write 0 100000 zcoord (fun v => v) (fun v => v) (fun v => v) (fun v => v) (fun r : ZRot => r) m kw.
-Definition zgeometry (m : @cmap Z ZRot) := geometry (Rot := ZRot) 0 100000 m.
+Definition zgeometry (m : @cmap Z ZRot) := geometry (Rot := ZRot) 100000 m.
 Definition zexpected := @expected Z ZRot zcoord (fun v => v) (fun v => v) (fun v => v) (fun r : ZRot => r).
 Definition zclean := @clean Z ZRot zcoord (fun v => v) (fun v => v).
 
@@ -51,14 +54,13 @@ Lemma good_instance :
 Proof.
   eexists. split; [vm_compute; reflexivity|]. split; [vm_compute; reflexivity|].
   constructor.
-  - intros kv Hin. vm_compute in Hin. destruct Hin as [<- | [<- | []]]; vm_compute; split; reflexivity.
+  - intros kv Hin. vm_compute in Hin. destruct Hin as [<- | [<- | []]]; vm_compute; repeat split; reflexivity.
   - vm_compute. repeat constructor; simpl; intuition discriminate.
   - intros e He. vm_compute in He. destruct He as [<- | []]. vm_compute. intuition discriminate.
   - intros _. change (axis_ok (fun k => Z.of_nat k * 150000) 3). apply axis_ok_linear. lia.
   - intros _. change (axis_ok (fun k => Z.of_nat k * 50000) 2). apply axis_ok_linear. lia.
   - intros p Hp Hi. vm_compute in Hp.
     destruct Hp as [<- | [<- | [<- | [<- | [<- | [<- | []]]]]]]; vm_compute in Hi; try discriminate; vm_compute; discriminate.
-  - vm_compute. lia.
 Qed.
 
 (* the round trip of that map, computed: phases 3, 7 become 1, 2; the masked
@@ -70,16 +72,6 @@ Lemma good_roundtrip_value :
   /\ map fst (r_props (zexpected m_good kw_good g_good)) = ["iq"; "ci"; "detector_signal"; "fit"; "dp"]%string.
 Proof. vm_compute. repeat split; reflexivity. Qed.
 
-(* ---------------------------------------------------------------- violations of the faithful model *)
-(* maps with at most 3 points cannot be written *)
-Lemma wit_small_map : zwrite (mk 1 3 (all_in 3) [0; 0; 0] [(0, ph "a" "432")] []) kw0 = None.
-Proof. vm_compute. reflexivity. Qed.
-
-(* exactly three points in data cannot be written *)
-Lemma wit_three_in_data :
-  zwrite (mk 2 3 [true; true; true; false; false; false] [0; 0; 0; 0; 0; 0] [(0, ph "a" "432")] []) kw0 = None.
-Proof. vm_compute. reflexivity. Qed.
-
 (* "write m kw gives a file whose read-back satisfies P" *)
 Definition rt_sat (w : option file) (P : rmap -> Prop) : Prop :=
   match w with
@@ -87,25 +79,95 @@ Definition rt_sat (w : option file) (P : rmap -> Prop) : Prop :=
   | None => False
   end.
 
-(* one point in data: the file is written but cannot be read *)
-Lemma wit_single_row :
-  match zwrite (mk 2 3 [false; true; false; false; false; false] [0; 0; 0; 0; 0; 0] [(0, ph "a" "432")] []) kw0 with
-  | Some f => read f = None
-  | None => False
+(* ---------------------------------------------------------------- strata of the repaired defects *)
+(* the round trip of m equals `expected` (computed), and the read-back map satisfies P *)
+Definition rt_exp (m : @cmap Z ZRot) (kw : kwargs) (P : rmap -> Prop) : Prop :=
+  match zwrite m kw, zgeometry m with
+  | Some f, Some g => read f = Some (zexpected m kw g) /\ P (zexpected m kw g)
+  | _, _ => False
   end.
-Proof. vm_compute. reflexivity. Qed.
 
-(* a single-column map (shape (4,)) comes back with shape () *)
-Lemma wit_single_column :
-  rt_sat (zwrite (mk 4 1 (all_in 4) [0; 0; 0; 0] [(0, ph "a" "432")] []) kw0)
-         (fun r => r_shape r = [] /\ r_dy r = 0).
+Definition one_phase : list (Z * @phase Z) := [(0, ph "a" "432")].
+
+(* maps with at most 3 points (get_map_data) *)
+Lemma fixed_small_map :
+  rt_exp (mk 1 3 (all_in 3) [0; 0; 0] one_phase []) kw0
+         (fun r => r_shape r = [3%nat] /\ r_dx r = 150000 /\ r_pid r = [1; 1; 1])
+  /\ rt_exp (mk 1 2 (all_in 2) [0; 0] one_phase []) kw0 (fun r => r_shape r = [2%nat] /\ r_pid r = [1; 1])
+  /\ rt_exp (mk 3 1 (all_in 3) [0; -1; 0] one_phase []) kw0 (fun r => r_shape r = [3%nat] /\ r_pid r = [1; -1; 1]).
+Proof. vm_compute. repeat split; reflexivity. Qed.
+
+(* ... also with a layer index (the Euler array is passed as an (n,3) array) *)
+Lemma fixed_small_map_index :
+  rt_exp {| m_rows := 1; m_cols := 2; m_dx := 150000; m_dy := 0; m_in := [true; true]; m_pid := [0; 0]; m_rmulti := true;
+            m_rots := [[(1, 2, 3); (4, 5, 6)]; [(7, 8, 9); (10, 11, 12)]]; m_phases := one_phase; m_props := [] |}
+         {| k_index := Some 1; k_iq := None; k_ci := None; k_ds := None; k_fit := None; k_extra := [] |}
+         (fun r => r_shape r = [2%nat] /\ r_eul r = [(4, 5, 6); (10, 11, 12)]).
+Proof. vm_compute. repeat split; reflexivity. Qed.
+
+(* exactly three points in data (get_map_data, repaired for C11) *)
+Lemma fixed_three_in_data :
+  rt_exp (mk 2 3 [true; true; true; false; false; false] [0; 0; 0; 0; 0; 0] one_phase []) kw0
+         (fun r => r_shape r = [3%nat] /\ r_pid r = [1; 1; 1]).
+Proof. vm_compute. repeat split; reflexivity. Qed.
+
+(* one point in data: the one-line file is read back (np.loadtxt(..., ndmin=2)) *)
+Lemma fixed_single_row :
+  rt_exp (mk 2 3 [false; true; false; false; false; false] [0; 0; 0; 0; 0; 0] one_phase []) kw0
+         (fun r => r_shape r = [] /\ r_pid r = [1] /\ r_eul r = [(1000, 50000, 100000)]).
+Proof. vm_compute. repeat split; reflexivity. Qed.
+
+(* a single-column map (shape (4,)) comes back with shape (4,) and its y step *)
+Lemma fixed_single_column :
+  rt_exp (mk 4 1 (all_in 4) [0; 0; 0; 0] one_phase []) kw0
+         (fun r => r_shape r = [4%nat] /\ r_dy r = 50000 /\ r_dx r = 0).
+Proof. vm_compute. repeat split; reflexivity. Qed.
+
+(* a single-point map (shape ()) is written and read back *)
+Lemma fixed_single_point :
+  rt_exp (mk 1 1 [true] [0] one_phase []) kw0 (fun r => r_shape r = [] /\ r_pid r = [1]).
+Proof. vm_compute. repeat split; reflexivity. Qed.
+
+(* a phase name with a blank comes back unchanged *)
+Lemma fixed_blank_name :
+  rt_exp (mk 2 2 (all_in 4) [0; 0; 0; 0] [(0, ph "iron alpha" "432")] []) kw0
+         (fun r => map (fun kv => rp_name (snd kv)) (r_phases r) = ["iron alpha"%string]).
+Proof. vm_compute. repeat split; reflexivity. Qed.
+
+(* a property named "ds" is the default detector signal *)
+Lemma fixed_default_ds :
+  rt_exp (mk 2 2 (all_in 4) [0; 0; 0; 0] one_phase
+             [{| pr_name := "ds"; pr_multi := false; pr_vals := map (fun v => [v]) [5; 6; 7; 8] |}]) kw0
+         (fun r => assoc_s "detector_signal" (r_props r) = Some [5; 6; 7; 8]).
+Proof. vm_compute. repeat split; reflexivity. Qed.
+
+(* the hypotheses of the round-trip theorem hold for a single-point map and for
+   a map with a blank in a phase name (no guard on the number of rows / on blanks) *)
+Definition m_point : @cmap Z ZRot := mk 1 1 [true] [0] [(0, ph "iron alpha" "432")] [].
+Definition g_point : @geom Z :=
+  match zgeometry m_point with Some g => g | None => {| g_nrows := 0; g_ncols := 0; g_dy := 0; g_dx := 0; g_pts := [] |} end.
+Lemma point_instance :
+  exists f, zwrite m_point kw0 = Some f /\ zgeometry m_point = Some g_point /\ zclean m_point kw0 g_point.
+Proof.
+  eexists. split; [vm_compute; reflexivity|]. split; [vm_compute; reflexivity|].
+  constructor.
+  - intros kv Hin. vm_compute in Hin. destruct Hin as [<- | []]. vm_compute. repeat split; reflexivity.
+  - vm_compute. constructor.
+  - intros e He. vm_compute in He. destruct He.
+  - intro H. vm_compute in H. lia.
+  - intro H. vm_compute in H. lia.
+  - intros p Hp Hi. vm_compute in Hp. destruct Hp as [<- | []]. vm_compute. discriminate.
+Qed.
+
+(* ---------------------------------------------------------------- violations of the faithful model *)
+(* leading or repeated blanks of a phase name are lost (the header is split at
+   blanks and joined with single blanks) *)
+Lemma wit_blank_run_name :
+  rt_sat (zwrite (mk 2 2 (all_in 4) [0; 0; 0; 0] [(0, ph " lead" "432")] []) kw0)
+         (fun r => map (fun kv => rp_name (snd kv)) (r_phases r) = ["lead"%string])
+  /\ rt_sat (zwrite (mk 2 2 (all_in 4) [0; 0; 0; 0] [(0, ph "x  y" "432")] []) kw0)
+         (fun r => map (fun kv => rp_name (snd kv)) (r_phases r) = ["x y"%string]).
 Proof. vm_compute. split; reflexivity. Qed.
-
-(* a phase name with a blank comes back as its last word *)
-Lemma wit_blank_name :
-  rt_sat (zwrite (mk 2 2 (all_in 4) [0; 0; 0; 0] [(0, ph "iron alpha" "432")] []) kw0)
-         (fun r => map (fun kv => rp_name (snd kv)) (r_phases r) = ["alpha"%string]).
-Proof. vm_compute. reflexivity. Qed.
 
 (* an indexed point whose confidence index is -1 comes back not indexed *)
 Lemma wit_ci_collision :
@@ -130,36 +192,12 @@ Lemma wit_extra_named_ci :
          (fun r => r_pid r = [1; 0; 1; 2]).
 Proof. vm_compute. reflexivity. Qed.
 
-Lemma ref_small_map : exists m kw, (m_rows m * m_cols m <= 3)%nat /\ zwrite m kw = None.
-Proof. exists (mk 1 3 (all_in 3) [0; 0; 0] [(0, ph "a" "432")] []), kw0. split; [simpl; auto | exact wit_small_map]. Qed.
-
-Lemma ref_three_in_data :
-  exists m kw, length (in_pts m) = 3%nat /\ zwrite m kw = None.
+Lemma ref_blank_run_name :
+  exists m kw, map (fun kv => ph_name (snd kv)) (m_phases m) = [" lead"%string]
+               /\ rt_sat (zwrite m kw) (fun r => map (fun kv => rp_name (snd kv)) (r_phases r) = ["lead"%string]).
 Proof.
-  exists (mk 2 3 [true; true; true; false; false; false] [0; 0; 0; 0; 0; 0] [(0, ph "a" "432")] []), kw0.
-  split; [reflexivity | exact wit_three_in_data].
-Qed.
-
-Lemma ref_single_row :
-  exists m kw, match zwrite m kw with Some f => read f = None | None => False end.
-Proof.
-  exists (mk 2 3 [false; true; false; false; false; false] [0; 0; 0; 0; 0; 0] [(0, ph "a" "432")] []), kw0.
-  exact wit_single_row.
-Qed.
-
-Lemma ref_single_column :
-  exists m kw, m_rows m = 4%nat /\ m_cols m = 1%nat /\ rt_sat (zwrite m kw) (fun r => r_shape r = [] /\ r_dy r = 0).
-Proof.
-  exists (mk 4 1 (all_in 4) [0; 0; 0; 0] [(0, ph "a" "432")] []), kw0.
-  split; [reflexivity | split; [reflexivity | exact wit_single_column]].
-Qed.
-
-Lemma ref_blank_name :
-  exists m kw, map (fun kv => ph_name (snd kv)) (m_phases m) = ["iron alpha"%string]
-               /\ rt_sat (zwrite m kw) (fun r => map (fun kv => rp_name (snd kv)) (r_phases r) = ["alpha"%string]).
-Proof.
-  exists (mk 2 2 (all_in 4) [0; 0; 0; 0] [(0, ph "iron alpha" "432")] []), kw0.
-  split; [reflexivity | exact wit_blank_name].
+  exists (mk 2 2 (all_in 4) [0; 0; 0; 0] [(0, ph " lead" "432")] []), kw0.
+  split; [reflexivity | exact (proj1 wit_blank_run_name)].
 Qed.
 
 Lemma ref_ci_collision :
